@@ -94,6 +94,11 @@ def dict2crystalmap(dictionary: dict) -> CrystalMap:
         "phase_id": data.pop("phase_id"),
         "is_in_data": data.pop("is_in_data"),
     }
+    # Euler angles cannot describe improper rotations. Files written by
+    # earlier versions of orix do not have this dataset.
+    improper = data.pop("improper", None)
+    if improper is not None:
+        crystal_map_dict["rotations"].improper = improper
     # Add standard items by updating the new dictionary
     for direction in ["y", "x"]:
         this_direction = data.pop(direction)
@@ -284,6 +289,7 @@ def crystalmap2dict(crystal_map: CrystalMap, dictionary: Optional[dict] = None) 
                 "phi1": eulers[..., 0],
                 "Phi": eulers[..., 1],
                 "phi2": eulers[..., 2],
+                "improper": crystal_map._rotations.improper,
                 "phase_id": crystal_map._phase_id,
                 "id": crystal_map._id,
                 "is_in_data": crystal_map.is_in_data,
